@@ -425,7 +425,14 @@ func (e *env) applyVerdict(rec *opRec, res *spb.AFTResult, foreign bool) {
 			}
 		case VProgram:
 			if op.GetOp() == spb.AFTOperation_DELETE {
-				e.report("C03", "delete-failed-without-referrer", kindSig(op), describeOp(op), false)
+				e.checkpoint(func() {
+					switch kindSig(op) {
+					case "nh", "nhg":
+						e.report("C03", "delete-failed-without-referrer", kindSig(op), describeOp(op)+" "+res.GetErrorDetails().GetErrorMessage(), false)
+					}
+					// DELETE removes only the named key and is idempotent (C01)
+					e.report("C01", "delete-failed", kindSig(op)+" DELETE answered FAILED although nothing forbids it", describeOp(op)+" "+res.GetErrorDetails().GetErrorMessage(), false)
+				})
 			}
 			e.report("C02", "resolvable-failed", kindSig(op)+" "+op.GetOp().String()+" answered FAILED although valid and resolvable", describeOp(op)+" "+res.GetErrorDetails().GetErrorMessage(), false)
 		case VHold:
